@@ -1,2 +1,56 @@
-From SV Require Import Engine.
-Theorem C13_placeholder : True. Proof. exact I. Qed.
+(* C13 - Hittability and note timing follow the warp rules exactly.  Statements only.
+   PARTIAL: the note-timing rule, order preservation and "a fake differs from the tap in nothing but the
+   type" are theorems; that hittable() coincides with "inside the warp union and no pause on that beat"
+   is established by the correspondence check against the independent rule on every tick around every
+   event (DESIGN.md, C13) - the segment invariants it rests on are C11_warp_segments / C11_events_sorted. *)
+From Coq Require Import List ZArith NArith QArith Bool.
+From SV Require Import Sx Beat Notes Engine Generated.Tables Proofs.EngineFacts.
+Import ListNotations.
+Open Scope Q_scope.
+
+(* each note is timed on its own, at the time of its beat, by the stated rule *)
+Theorem C13_time_notes_rule : forall opt sts d n,
+  time_notes opt sts d [n] =
+  if hittable sts d (note_beat n) || Z.eqb opt 3 then [(time_at sts d (note_beat n) tSTOP, n)]
+  else if Z.eqb opt 1 && N.eqb (ntype n) 49 then [(time_at sts d (note_beat n) tSTOP, as_fake n)]
+  else [].
+Proof. exact time_notes_one. Qed.
+Print Assumptions C13_time_notes_rule.
+
+(* original order: timing a stream is timing its pieces in order *)
+Theorem C13_order : forall opt sts d a b,
+  time_notes opt sts d (a ++ b) = time_notes opt sts d a ++ time_notes opt sts d b.
+Proof. exact time_notes_app. Qed.
+Print Assumptions C13_order.
+
+(* a fake differs from the original tap in nothing but the note type *)
+Theorem C13_fake_only_type : forall n,
+  nb_n (as_fake n) = nb_n n /\ nb_d (as_fake n) = nb_d n /\ ncol (as_fake n) = ncol n /\
+  nplayer (as_fake n) = nplayer n /\ nks (as_fake n) = nks n /\ ntype (as_fake n) = 70%N.
+Proof. exact as_fake_only_type. Qed.
+Print Assumptions C13_fake_only_type.
+
+(* the hittability decision, as the code makes it, on the state selected for (beat, STOP_END) *)
+Theorem C13_hittable_decision : forall sts d b,
+  hittable sts d b =
+  let p := prior sts d b tSTOP_END in
+  negb (s_warp p) || (is_end_tag (s_tag p) && qeq b (s_beat p)).
+Proof. intros sts d b. unfold hittable. cbv zeta. destruct (s_warp (prior sts d b tSTOP_END)); reflexivity. Qed.
+Print Assumptions C13_hittable_decision.
+
+Theorem C13_unhittable_options :
+  Tables.unhittable_notes = [([84;65;80;95;84;79;95;70;65;75;69]%N, 1%Z); ([68;82;79;80;95;78;79;84;69]%N, 2%Z); ([75;69;69;80;95;78;79;84;69]%N, 3%Z)].
+Proof. reflexivity. Qed.
+
+(* warp 4..6 with a stop on beat 5: 4 and 5.5 unhittable, 5 (stop) and 6 (end excluded) hittable; routine keysounded tap -> fake *)
+Definition ex13 : tdata := {| td_bpms := [(0, 120)]; td_stops := [(5, 1 # 2)]; td_delays := []; td_warps := [(4, 2)]; td_offset := 0 |}.
+Definition tapn : note := {| nb_n := 9; nb_d := 2; ncol := 1; ntype := 49%N; nplayer := 1; nks := Some 0%Z |}.
+Example C13_example :
+  match states ex13 with
+  | EOk sts =>
+      let d := hd {| s_beat := 0; s_val := 0; s_tag := 0; s_time := 0; s_bpm := 1; s_warp := false |} sts in
+      negb (hittable sts d 4) && hittable sts d 5 && negb (hittable sts d (11 # 2)) && hittable sts d 6 && hittable sts d (7 # 2) &&
+      match time_notes 1 sts d [tapn] with [(t, n)] => Qeq_bool t 2 && N.eqb (ntype n) 70 && Z.eqb (nplayer n) 1 | _ => false end &&
+      match time_notes 2 sts d [tapn] with [] => true | _ => false end
+  | _ => false end = true.
+Proof. vm_compute. reflexivity. Qed.
